@@ -80,6 +80,10 @@ var c10Corners = []string{
 	"SELECT * FROM t x PARALLEL LEFT JOIN u y ON x.a < y.c OR x.b = y.b",
 	"SELECT * FROM t x PARALLEL JOIN u y ON x.b = y.b",
 	"SELECT id, ASYNC.HMID(a) AS m, SPINASYNC.HMID(`o.p`) FROM t",
+	"SELECT * FROM t x PARALLEL JOIN u y ON x.id < y.c AND (x.id DIV 0) IS NULL",
+	"SELECT * FROM t x PARALLEL LEFT JOIN u y ON HPANIC(x.a) = y.c",
+	"SELECT * FROM t x PARALLEL JOIN u y ON x.id < y.c AND ELEMENTAT(x.items, 5) = 1",
+	"SELECT * FROM t x PARALLEL HASH_JOIN u y ON x.b = y.b INTO j",
 	"SELECT * FROM t x PARALLEL JOIN u y ON x.a + y.c",
 	"SELECT * FROM t x PARALLEL LEFT JOIN u y ON x.b",
 	"SELECT * FROM t x PARALLEL HASH_JOIN u y ON x.items = y.b",
@@ -325,6 +329,15 @@ func (p *c10) Init(tier string) {
 			return map[string]any{"t": []any{1.0, "x", nil, []any{}, map[string]any{"id": 0.0, "a": nil, "b": 1.0, "items": "notarray", "o": []any{}}}, "u": map[string]any{"b": "x"}, "m": []any{[]any{[]any{[]any{}}}, 3.0}, "scalar": nil, "a": []any{}}
 		},
 		func() map[string]any { return map[string]any{} },
+		// a wide table (48 rows with distinct keys): fan-out limits of the PARALLEL joins (used for
+		// the PARALLEL corners only, default schedule)
+		func() map[string]any {
+			t := []any{}
+			for i := 0; i < 48; i++ {
+				t = append(t, row(float64(i), float64(i%5), []string{"x", "y", "z"}[i%3], float64(i)))
+			}
+			return map[string]any{"t": t, "u": []any{map[string]any{"b": "x", "c": 2.0}, map[string]any{"b": "z", "c": 30.0}, map[string]any{"b": "y", "c": 100.0}}}
+		},
 	}
 }
 
@@ -417,7 +430,7 @@ func (p *c10) RunCase(i int) *core.CaseResult {
 	raceSeen := map[string]bool{}
 	raceBase := racemon.Errors()
 	nOpts := 8
-	docs := []int{0, 1, 2}
+	docs := []int{0, 1, 2, 3}
 	if c.kind != "corner" {
 		// mutated / enumerated strings: option combinations that change the text (pg, idiomatic, both) + none + wrapped
 		nOpts = 5
@@ -433,13 +446,16 @@ func (p *c10) RunCase(i int) *core.CaseResult {
 				if sub <= resume {
 					continue
 				}
+				if di == 3 && !strings.Contains(sql, "PARALLEL") {
+					continue
+				}
 				core.SetSub(sub)
 				doc := p.docs[di]()
 				hOnceCounter = 0
 				sched := strings.Contains(sql, "PARALLEL") || strings.Contains(sql, "ASYNC") || strings.Contains(sql, "SPIN")
 				opts := append(append([]genql.QueryOption{}, combos[m]...), genql.WithVars(map[string]any{}), genql.WithConstants(map[string]any{"c": 1.0}), genql.UnReportedErrors(func(error) {}))
 				var outs []*gq.Out
-				if sched && c.kind == "corner" {
+				if sched && c.kind == "corner" && di != 3 {
 					// goroutine-bearing corners: every schedule with <= 1 preemption
 					vrt.SetQuiet(genql.VerifSelectorMutex())
 					st := gq.ExploreQuery(vrt.Config{Sched: true, Quiet: true}, 1, 20000,
@@ -491,7 +507,7 @@ func (p *c10) RunCase(i int) *core.CaseResult {
 
 func (p *c10) Meta() core.Meta {
 	return core.Meta{
-		Rule:        "corner cases: 170 hand-listed queries (NATURAL JOIN, chained UNION, self- / mutually- / recursively-referencing CTEs, unbalanced brackets under IdiomaticArrays, out-of-range indices in FROM paths, PARALLEL joins and ASYNC / SPIN / SPINASYNC calls whose evaluation fails or panics, DISTINCT over subqueries / back-references plus star, ORDER BY / GROUP BY of objects, SUBSTR / ELEMENTAT out of range, unsupported MySQL syntax families, scalars where arrays are expected) x all 8 option combinations x 3 documents, goroutine-bearing ones under every schedule with <= 1 preemption with the race detector as a monitor for unsynchronised map accesses (which are fatal errors, not panics); mutation cases: every single-token mutation (delete, duplicate, replace by / insert each of 54 tokens) of 12 (thorough 24) seed queries covering the supported grammar x 5 option combinations x 2 documents; token cases: every token string of length <= 3 (thorough 4) over a 30-token alphabet x 5 option combinations. Oracle: no panic escapes New / Exec, no library goroutine panics, no deadlock (scheduler), no worker death (stack overflow, fatal error) and no hang (watchdog), each attributed to the journalled sub-case. non-trivial = some query of the case succeeded",
+		Rule:        "corner cases: 174 hand-listed queries (NATURAL JOIN, chained UNION, self- / mutually- / recursively-referencing CTEs, unbalanced brackets under IdiomaticArrays, out-of-range indices in FROM paths, PARALLEL joins and ASYNC / SPIN / SPINASYNC calls whose evaluation fails or panics, DISTINCT over subqueries / back-references plus star, ORDER BY / GROUP BY of objects, SUBSTR / ELEMENTAT out of range, unsupported MySQL syntax families, scalars where arrays are expected) x all 8 option combinations x 3 documents (PARALLEL corners also on a 48-row table with distinct keys), goroutine-bearing ones under every schedule with <= 1 preemption with the race detector as a monitor for unsynchronised map accesses (which are fatal errors, not panics); mutation cases: every single-token mutation (delete, duplicate, replace by / insert each of 54 tokens) of 12 (thorough 24) seed queries covering the supported grammar x 5 option combinations x 2 documents; token cases: every token string of length <= 3 (thorough 4) over a 30-token alphabet x 5 option combinations. Oracle: no panic escapes New / Exec, no library goroutine panics, no deadlock (scheduler), no worker death (stack overflow, fatal error) and no hang (watchdog), each attributed to the journalled sub-case. non-trivial = some query of the case succeeded",
 		Assumptions: []string{"user-registered functions that panic with a value that is not an error are outside the property's quantifier; HPANIC panics with an error value, HPANICSTR with a runtime error", "debug.SetMaxStack(256 MiB) makes runaway recursion fail fast; the watchdog kills a worker without progress for 120 s"},
 		Bounds:      map[string]any{"corners": len(c10Corners), "seeds": len(c10Seeds), "menu": len(c10Menu), "token_alphabet": len(c10TokenAlphabet), "token_length": p.tokLen},
 		Exhaustive:  true,
